@@ -627,3 +627,133 @@ def _tilt_validate(t):
 
 add("tiltRangeValidate", "Wedge", ["C08"], "acryo/tilt/_single.py", "func",
     [("_min", R), ("_max", R)], _tilt_validate, ret="Unit")
+
+
+# ==========================================================================================
+# C07  score formulas and pre-processing chain (structural facts + PCC wrap rule)
+# ==========================================================================================
+def pattern(sel):
+    """A structural fact: True when the source has the expected shape, False otherwise (the
+    theorem `... = true` then no longer checks and the failing-input search takes over)."""
+    def wrapped(t):
+        try:
+            return bool(sel(t))
+        except (SelectorMiss, AttributeError, IndexError):
+            return False
+    return wrapped
+
+
+def _unparse_norm(n):
+    return ast.unparse(n).replace(" ", "")
+
+
+def _ncc_form(t):
+    r = ret(func(t, "ncc"))
+    want = "backend.sum(img0*img1)/backend.sqrt(backend.sum(img0**2)*backend.sum(img1**2))"
+    if _unparse_norm(r) != want:
+        raise SelectorMiss("ncc is not sum(a*b)/sqrt(sum(a**2)*sum(b**2))")
+    return True
+
+
+def _zncc_form(t):
+    r = ret(func(t, "zncc"))
+    want = "ncc(img0-img0.mean(),img1-img1.mean(),backend=backend)"
+    if _unparse_norm(r) != want:
+        raise SelectorMiss("zncc is not ncc(a - a.mean(), b - b.mean())")
+    return True
+
+
+add("nccIsNormalisedDot", "Score", ["C07"], "acryo/backend/_zncc.py", "const", [], pattern(_ncc_form))
+add("znccIsCentredNcc", "Score", ["C07"], "acryo/backend/_zncc.py", "const", [], pattern(_zncc_form))
+
+
+def _score_chain(cls, real_fn):
+    """`_score` of a concrete model applies the wedge mask to both spectra out of place, goes back
+    to real space and calls the score function: fn(ifftn(subvolume * mw).real, ifftn(template * mw).real)."""
+    def sel(t):
+        fn = func(t, f"{cls}._score")
+        r = ret(fn)
+        if not isinstance(r, ast.Call) or ast.unparse(r.func) != real_fn:
+            raise SelectorMiss(f"{cls}._score does not return {real_fn}(...)")
+        a0, a1 = _unparse_norm(r.args[0]), _unparse_norm(r.args[1])
+        if a0 != "backend.ifftn(subvolume*mw).real" or a1 != "backend.ifftn(template*mw).real":
+            raise SelectorMiss(f"unexpected score arguments {a0}, {a1}")
+        body = [s for s in fn.body if not (isinstance(s, ast.Expr) and isinstance(s.value, ast.Constant))]
+        if len(body) != 2 or _unparse_norm(body[0]) != "mw=self._get_missing_wedge_mask(quaternion,backend)":
+            raise SelectorMiss("extra statements in _score")
+        return True
+    return sel
+
+
+add("znccScoreChain", "Score", ["C07"], "acryo/alignment/_concrete.py", "const", [],
+    pattern(_score_chain("ZNCCAlignment", "zncc")))
+add("nccScoreChain", "Score", ["C07"], "acryo/alignment/_concrete.py", "const", [],
+    pattern(_score_chain("NCCAlignment", "ncc")))
+
+
+def _pre_chain(qual, call_name):
+    """mask is applied before pre_transform: self.pre_transform(<img> * <mask>, backend)."""
+    def sel(t):
+        fn = func(t, qual)
+        c = call(fn, "self.pre_transform")
+        a = _unparse_norm(c.args[0])
+        if a not in ("xp.asarray(img)*_mask", "subvolume*mask"):
+            raise SelectorMiss(f"pre_transform argument {a}")
+        return True
+    return sel
+
+
+add("scoreMaskThenTransform", "Score", ["C07"], "acryo/alignment/_base.py", "const", [],
+    pattern(_pre_chain("BaseAlignmentModel.score", "score")))
+add("optimizeMaskThenTransform", "Score", ["C07"], "acryo/alignment/_base.py", "const", [],
+    pattern(_pre_chain("BaseAlignmentModel._optimize_single", "opt")))
+add("landscapeMaskThenTransform", "Score", ["C07"], "acryo/alignment/_base.py", "const", [],
+    pattern(_pre_chain("BaseAlignmentModel._landscape_single", "lds")))
+
+
+def _fsc_is_landscape_centre(t):
+    fn = func(t, "fsc")
+    c = assign_rhs(fn, "out")
+    if _unparse_norm(c) != "fsc_landscape(ft0,ft1,(0,0,0),backend=backend)":
+        raise SelectorMiss("fsc() is not fsc_landscape(..., (0,0,0))")
+    if _unparse_norm(ret(fn)) != "out[0,0,0]":
+        raise SelectorMiss("fsc() does not return out[0,0,0]")
+    return True
+
+
+add("fscIsLandscapeCentre", "Score", ["C07"], "acryo/backend/_fsc.py", "const", [],
+    _fsc_is_landscape_centre)
+
+
+def _same_landscape_call(f_align, f_lds):
+    """The alignment and the landscape function build the response with the same call."""
+    def sel(t):
+        fa = func(t, f_align)
+        a = _unparse_norm(assign_rhs(fa, "response"))
+        b = _unparse_norm(assign_rhs(func(t, f_lds), "response"))
+        # the alignment function may centre its inputs in separate statements first
+        try:
+            if _unparse_norm(assign_rhs(fa, "img0")) == "img0-img0.mean()" and \
+                    _unparse_norm(assign_rhs(fa, "img1")) == "img1-img1.mean()":
+                a = a.replace("(img0,img1,", "(img0-img0.mean(),img1-img1.mean(),")
+        except SelectorMiss:
+            pass
+        if a != b:
+            raise SelectorMiss(f"{f_align} and {f_lds} compute different responses")
+        pa = _unparse_norm(assign_rhs(func(t, f_align), "pad_width_eff"))
+        pb = _unparse_norm(assign_rhs(func(t, f_lds), "pad_width_eff"))
+        if pa != pb:
+            raise SelectorMiss("different crop widths")
+        return True
+    return sel
+
+
+add("znccAlignUsesLandscape", "Score", ["C07"], "acryo/backend/_zncc.py", "const", [],
+    pattern(_same_landscape_call("subpixel_zncc", "zncc_landscape_with_crop")))
+add("nccAlignUsesLandscape", "Score", ["C07"], "acryo/backend/_zncc.py", "const", [],
+    pattern(_same_landscape_call("subpixel_ncc", "ncc_landscape_with_crop")))
+add("pccMidpoint", "Score", ["C07", "C04"], "acryo/backend/_pcc.py", "expr", [("axis_size", I)],
+    lambda t: first(assign_rhs(func(t, "subpixel_pcc"), "midpoints"), ast.ListComp).elt)
+add("pccWrapCond", "Score", ["C07", "C04"], "acryo/backend/_pcc.py", "expr",
+    [("shifts", R), ("midpoints", R)],
+    lambda t: assign_rhs(func(t, "subpixel_pcc"), "sl"))
